@@ -9,7 +9,7 @@ use crate::chars::Char;
 #[cfg(not(nucleo_verif_small))]
 const MAX_MATRIX_SIZE: usize = 100 * 1024; // 100*1024 = 100KB
 #[cfg(nucleo_verif_small)]
-const MAX_MATRIX_SIZE: usize = 64;
+const MAX_MATRIX_SIZE: usize = 96;
 
 // these two aren't hard maxima, instead we simply allow whatever will fit into memory
 #[cfg(not(nucleo_verif_small))]
@@ -17,7 +17,7 @@ const MAX_HAYSTACK_LEN: usize = 2048; // 64KB
 #[cfg(not(nucleo_verif_small))]
 const MAX_NEEDLE_LEN: usize = 2048; // 64KB
 #[cfg(nucleo_verif_small)]
-const MAX_HAYSTACK_LEN: usize = 16;
+const MAX_HAYSTACK_LEN: usize = 24;
 #[cfg(nucleo_verif_small)]
 const MAX_NEEDLE_LEN: usize = 16;
 
